@@ -3,6 +3,8 @@
   lib.rs `ClockErrorBound`, both `#[repr(C)]`), `ShmHeader::read` / `is_valid`, `ShmReader::new`,
   `ShmWriter::new` (`is_usable_segment` / `wipe` / `mmap_segment_at` / `version.store(1)`),
   the first `ShmWriter::write`, and what a fresh `ShmReader` then reads back.
+  `ShmWriter::new` is the repaired one: a usable segment whose file is shorter than 72 bytes is grown
+  to 72 bytes (`set_len`) before it is mapped.
 
   Bytes are `List Nat` (each element meant to be < 256; the theorems about opening hold for every
   list).  Native endianness is little-endian (x86-64 / aarch64 hosts, see COMMON_ASSUMPTIONS).
@@ -181,14 +183,21 @@ def Except.isOk : Except ε α → Bool
 def wipeBytes : Bytes :=
   encodeHeader ⟨MAGIC0, MAGIC1, SEGMENT_SIZE, 0, 0⟩ ++ List.replicate RECORD_SIZE 0
 
+/-- `File::set_len(72)` on a file shorter than 72 bytes: the existing bytes stay, zero bytes are
+    appended up to offset 72; a file of 72 bytes or more is left alone (the writer only calls
+    `set_len` on a shorter file) -/
+def extendToSegment (bs : Bytes) : Bytes := bs ++ List.replicate (SEGMENT_SIZE - bs.length) 0
+
 /-- `ShmWriter::new`: new state of the path and whether the file was re-created.
     `.error errno`: start-up fails (`wipe`'s `File::create` on a directory). A usable segment is taken
-    over in place: only the version field is stored to. -/
+    over in place: a file that ends before byte 72 is first grown to 72 bytes with zeros
+    (`OpenOptions::new().write(true).open(path)?.set_len(72)`), then the file is mapped and only the
+    version field is stored to.  Anything else is wiped and re-created. -/
 def writerNew (st : FileState) : Except Nat (FileState × Bool) :=
   match readerOpen st with
   | .ok _ =>
     match st with
-    | .file bs => .ok (.file (patch bs 12 (encU16 1)), false)
+    | .file bs => .ok (.file (patch (extendToSegment bs) 12 (encU16 1)), false)
     | s => .ok (s, false)                       -- unreachable: only files open
   | .error _ =>
     match st with
@@ -218,7 +227,8 @@ def startAndPublish (st : FileState) (r : Record) (pad : Bytes) : Except Nat (Fi
 
 inductive Snap
   | err (e : ShmErr)    -- `ShmReader::new` failed
-  | short               -- the file ends before byte 72: the record is not (all) in the file
+  | short               -- the file ends before byte 72: the record is not (all) in the file (a static
+                        -- file only: the daemon never leaves one behind, see `C16.truncated_extended`)
   | undef               -- the status word is not a valid discriminant
   | record (r : Record)
 deriving Repr, BEq, DecidableEq, Inhabited
